@@ -18,8 +18,9 @@ pub fn run_segment<K: IndexType>(ops: &[Value], log: &mut Log) {
         // builds maximally deep trees (no path halving on the way). Logged as a plain union.
         let mut opv = op0.clone();
         if op0["op"] == "union_reps" {
-            let rx = uf.try_find(k::<K>(op0, "x")).map(|r| r.index());
-            let ry = uf.try_find(k::<K>(op0, "y")).map(|r| r.index());
+            // (a panic in the code under test is data, never a harness failure: fall back to the plain arguments)
+            let rx = guard(|| uf.try_find(k::<K>(op0, "x")).map(|r| r.index())).unwrap_or(None);
+            let ry = guard(|| uf.try_find(k::<K>(op0, "y")).map(|r| r.index())).unwrap_or(None);
             if let (Some(rx), Some(ry)) = (rx, ry) {
                 opv = json!({"op": if op0["try"] == true {"try_union"} else {"union"}, "x": rx, "y": ry});
             } else {
@@ -60,11 +61,11 @@ pub fn run_segment<K: IndexType>(ops: &[Value], log: &mut Log) {
             }
             "new_set" => or_panic(guard(|| ri(uf.new_set().index()))),
             "find" => or_panic(guard(|| ri(uf.find(k::<K>(op, "x")).index()))),
-            "try_find" => opt_i(uf.try_find(k::<K>(op, "x")).map(|r| r.index())),
+            "try_find" => or_panic(guard(|| opt_i(uf.try_find(k::<K>(op, "x")).map(|r| r.index())))),
             "find_mut" => or_panic(guard(|| ri(uf.find_mut(k::<K>(op, "x")).index()))),
-            "try_find_mut" => opt_i(uf.try_find_mut(k::<K>(op, "x")).map(|r| r.index())),
+            "try_find_mut" => or_panic(guard(|| opt_i(uf.try_find_mut(k::<K>(op, "x")).map(|r| r.index())))),
             "equiv" => or_panic(guard(|| rb(uf.equiv(k::<K>(op, "x"), k::<K>(op, "y"))))),
-            "try_equiv" => res_bi(uf.try_equiv(k::<K>(op, "x"), k::<K>(op, "y")).map_err(|e| e.index())),
+            "try_equiv" => or_panic(guard(|| res_bi(uf.try_equiv(k::<K>(op, "x"), k::<K>(op, "y")).map_err(|e| e.index())))),
             "union" => or_panic(guard(|| rb(uf.union(k::<K>(op, "x"), k::<K>(op, "y"))))),
             "try_union" => {
                 or_panic(guard(|| res_bi(uf.try_union(k::<K>(op, "x"), k::<K>(op, "y")).map_err(|e| e.index()))))
@@ -100,7 +101,7 @@ pub fn run_segment<K: IndexType>(ops: &[Value], log: &mut Log) {
         // cheap scalar state after a union: the representative now shared by x (and y)
         if name == "union" || name == "try_union" {
             let x = op["x"].as_u64().unwrap() as usize;
-            ev["rep"] = opt_i(uf.try_find(K::new(x)).map(|r| r.index()));
+            ev["rep"] = or_panic(guard(|| opt_i(uf.try_find(K::new(x)).map(|r| r.index()))));
         }
         log.ev(ev);
     }
